@@ -1,16 +1,261 @@
 package main
 
 import (
+	"encoding/json"
+	"flag"
 	"fmt"
+	"os"
+	"path/filepath"
+	"strings"
+	"time"
+
 	"golang.org/x/tools/go/packages"
 	"golang.org/x/tools/go/ssa"
 	"golang.org/x/tools/go/ssa/ssautil"
 )
 
-func main() {
-	cfg := &packages.Config{Mode: packages.LoadAllSyntax, Dir: "/repo"}
-	pkgs, err := packages.Load(cfg, "./opentype/...")
-	fmt.Println(len(pkgs), err)
+func defaultConfig() Config {
+	return Config{MergeDefault: true, MergeMaxBlocks: 60, Policy: map[string]string{}, Unwind: 64, MaxDepth: 200,
+		MaxSteps: 50_000_000, MaxPaths: 1 << 30, FeasMs: 5000, FinalMs: 60000, StopOnViol: true, Known: map[string]bool{}, AllocBound: 64}
+}
+
+// loadProgram loads the packages matching patterns in dir, with overlay files, and builds SSA.
+func loadProgram(dir string, overlay map[string][]byte, tags string, patterns ...string) (*ssa.Program, []*packages.Package, error) {
+	cfg := &packages.Config{Mode: packages.LoadAllSyntax, Dir: dir, Overlay: overlay, Env: append(os.Environ(), "GOFLAGS=-mod=mod", "GOPROXY=off", "GOSUMDB=off", "GOTOOLCHAIN=local")}
+	if tags != "" {
+		cfg.BuildFlags = []string{"-tags=" + tags}
+	}
+	pkgs, err := packages.Load(cfg, patterns...)
+	if err != nil {
+		return nil, nil, err
+	}
+	var errs []string
+	packages.Visit(pkgs, nil, func(p *packages.Package) {
+		for _, e := range p.Errors {
+			errs = append(errs, e.Error())
+		}
+	})
+	if len(errs) > 0 {
+		return nil, nil, fmt.Errorf("package errors:\n%s", strings.Join(errs, "\n"))
+	}
 	prog, _ := ssautil.AllPackages(pkgs, ssa.InstantiateGenerics)
 	prog.Build()
+	return prog, pkgs, nil
+}
+
+type HarnessResult struct {
+	Harness   string         `json:"harness"`
+	Verdict   string         `json:"verdict"` // HELD, VIOLATION, KNOWN, INCONCLUSIVE
+	Paths     []PathResult   `json:"paths,omitempty"`
+	Stats     Stats          `json:"stats"`
+	Events    []Event        `json:"events,omitempty"`
+	Covers    map[string]int `json:"covers"`
+	Entered   map[string]int `json:"functions_entered"`
+	SolverSat int            `json:"solver_sat"`
+	SolverUns int            `json:"solver_unsat"`
+	SolverUnk int            `json:"solver_unknown"`
+	SolverS   float64        `json:"solver_wall_s"`
+	WallS     float64        `json:"wall_s"`
+	Prefix    []int          `json:"prefix,omitempty"`
+	Notes     []string       `json:"notes,omitempty"`
+}
+
+// runHarness explores one harness function to completion.
+func runHarness(prog *ssa.Program, fn *ssa.Function, cfg Config, prefix []int, solverBin, logPath string) (hr HarnessResult) {
+	t0 := time.Now()
+	e, err := NewExec(prog, cfg, solverBin, logPath)
+	hr.Harness = fn.Name()
+	hr.Prefix = prefix
+	if err != nil {
+		hr.Verdict = "INCONCLUSIVE"
+		hr.Events = []Event{{"solver", err.Error()}}
+		return
+	}
+	defer e.sol.Close()
+	st := e.newState()
+	st.prefix = prefix
+	var outs []Outcome
+	func() {
+		defer func() {
+			if r := recover(); r != nil {
+				switch u := r.(type) {
+				case unsupportedErr:
+					e.event("unsupported", u.msg)
+				case frozenViolation:
+					e.event("frozen-write", "store into frozen object "+u.obj.name)
+				default:
+					panic(r)
+				}
+			}
+		}()
+		outs = e.callFn(st, fn, nil, nil, "harness")
+	}()
+	for _, o := range outs {
+		e.finishPath(o)
+	}
+	hr.Paths = e.results
+	hr.Stats = e.stats
+	hr.Events = e.events
+	hr.Notes = e.notes
+	hr.Covers = e.covers
+	hr.Entered = e.entered
+	hr.SolverSat, hr.SolverUns, hr.SolverUnk = e.sol.nSat, e.sol.nUnsat, e.sol.nUnknown
+	hr.SolverS = e.sol.wall.Seconds()
+	hr.WallS = time.Since(t0).Seconds()
+	hr.Verdict = "HELD"
+	for _, p := range e.results {
+		if p.Kind == "known" && hr.Verdict == "HELD" {
+			hr.Verdict = "KNOWN"
+		}
+	}
+	if len(e.events) > 0 {
+		hr.Verdict = "INCONCLUSIVE"
+	}
+	for _, p := range e.results {
+		if p.Kind == "inconclusive" {
+			hr.Verdict = "INCONCLUSIVE"
+		}
+	}
+	for _, p := range e.results {
+		if p.Kind == "violation" {
+			hr.Verdict = "VIOLATION"
+		}
+	}
+	return
+}
+
+func (e *Exec) finishPath(o Outcome) {
+	e.stats.Paths++
+	switch o.kind {
+	case OReturn:
+		e.stats.PathsOK++
+		return
+	case ODead:
+		e.stats.PathsDead++
+		return
+	case OPanic:
+	default:
+		return
+	}
+	pr := PathResult{Label: o.pinfo.Kind + ": " + o.pinfo.Msg, Site: o.pinfo.Site, Covers: o.st.covers}
+	for _, cv := range o.st.covers {
+		if strings.HasPrefix(cv, "known:") {
+			pr.Known = strings.TrimPrefix(cv, "known:")
+		}
+	}
+	r := e.sol.Check(o.st.pc, nil, e.cfg.FinalMs)
+	switch r {
+	case "unsat":
+		e.stats.PathsDead++
+		return
+	case "unknown":
+		pr.Kind = "inconclusive"
+		pr.Label += " (solver: unknown on the path condition; " + e.sol.lastErr + ")"
+		e.results = append(e.results, pr)
+		return
+	}
+	var ts []*Term
+	for _, d := range o.st.draws {
+		ts = append(ts, d.T)
+		ts = append(ts, d.Args...)
+	}
+	vals, err := e.sol.Values(ts)
+	if err != nil {
+		pr.Kind = "inconclusive"
+		pr.Label += " (model extraction failed: " + err.Error() + ")"
+		e.results = append(e.results, pr)
+		return
+	}
+	k := 0
+	for _, d := range o.st.draws {
+		dv := DrawVal{Name: d.Name, Val: vals[k]}
+		k++
+		if d.Kind == "uf" {
+			dv.Name = "uf:" + d.Name
+			for range d.Args {
+				dv.Args = append(dv.Args, vals[k])
+				k++
+			}
+		}
+		pr.Model = append(pr.Model, dv)
+	}
+	if pr.Known != "" {
+		pr.Kind = "known"
+		e.stats.PathsKnown++
+	} else {
+		pr.Kind = "violation"
+		e.stats.PathsViol++
+		if e.cfg.StopOnViol {
+			e.stopAll = true
+		}
+	}
+	e.results = append(e.results, pr)
+}
+
+func main() {
+	if len(os.Args) < 2 {
+		fmt.Println("usage: gosym run|check ...")
+		os.Exit(2)
+	}
+	switch os.Args[1] {
+	case "run":
+		cmdRun(os.Args[2:])
+	default:
+		fmt.Println("unknown command")
+		os.Exit(2)
+	}
+}
+
+// cmdRun: development entry: gosym run -dir D -pkg P -overlaydir O -fn Name [-nomerge]
+func cmdRun(args []string) {
+	fs := flag.NewFlagSet("run", flag.ExitOnError)
+	dir := fs.String("dir", "/repo", "module dir")
+	pkg := fs.String("pkg", ".", "package pattern")
+	ovd := fs.String("overlaydir", "", "directory whose *.go files are injected into the package dir")
+	fnName := fs.String("fn", "", "harness function name (comma separated)")
+	nomerge := fs.Bool("nomerge", false, "fork everywhere")
+	verbose := fs.Int("v", 0, "verbosity")
+	solver := fs.String("solver", "z3", "solver binary")
+	logp := fs.String("log", "", "SMT transcript path")
+	all := fs.Bool("all", false, "do not stop at the first violation")
+	unwind := fs.Int("unwind", 64, "loop bound")
+	fs.Parse(args)
+	overlay := map[string][]byte{}
+	if *ovd != "" {
+		files, _ := filepath.Glob(filepath.Join(*ovd, "*.go"))
+		pdir := filepath.Join(*dir, strings.TrimPrefix(*pkg, "./"))
+		for _, f := range files {
+			b, _ := os.ReadFile(f)
+			overlay[filepath.Join(pdir, "zz_"+filepath.Base(f))] = b
+		}
+	}
+	t0 := time.Now()
+	prog, pkgs, err := loadProgram(*dir, overlay, "verif", *pkg)
+	if err != nil {
+		fmt.Println("load:", err)
+		os.Exit(2)
+	}
+	fmt.Printf("loaded in %.1fs\n", time.Since(t0).Seconds())
+	sp := prog.Package(pkgs[0].Types)
+	cfg := defaultConfig()
+	cfg.MergeDefault = !*nomerge
+	cfg.Verbose = *verbose
+	cfg.StopOnViol = !*all
+	cfg.Unwind = *unwind
+	exit := 0
+	for _, name := range strings.Split(*fnName, ",") {
+		fn := sp.Func(name)
+		if fn == nil {
+			fmt.Println("no such function", name)
+			os.Exit(2)
+		}
+		hr := runHarness(prog, fn, cfg, nil, *solver, *logp)
+		hr.Entered = nil
+		b, _ := json.MarshalIndent(hr, "", " ")
+		fmt.Println(string(b))
+		if hr.Verdict != "HELD" {
+			exit = 1
+		}
+	}
+	os.Exit(exit)
 }
